@@ -335,6 +335,9 @@ func Main(id string, hs ...Harness) {
 	if ev == "" {
 		ev = filepath.Join("/verif/evidence", id+".json")
 	}
+	if len(r.unrepro) > 0 {
+		fmt.Printf("WARNING: %d violation(s) found by the explorer did not reproduce on independent replay and are NOT reported; this points at the harness (see 'unreproduced' in the evidence). First: %s: %s\n", len(r.unrepro), r.unrepro[0].Harness, r.unrepro[0].Msg)
+	}
 	r.writeEvidence(ev, len(confirmed))
 	if len(confirmed) == 0 || *noVerdict {
 		os.Exit(0)
